@@ -357,3 +357,133 @@ pub fn task_name(t: &MTask) -> String {
 pub fn front_for(valued: bool, rng: &mut Rng) -> Front {
     crate::gen::front(rng, valued)
 }
+
+// ------------------------------------------------ C06: one-call entry points
+
+/// `X::from_iter(items)` as a one-call history (C06: "from_iter ... stop at
+/// the first rejected item with that same error").
+#[derive(Clone, Debug, PartialEq, Eq)]
+pub struct FromIterCase {
+    pub entry: MemFront,
+    pub items: Vec<Item>,
+}
+
+pub struct FromIterRun {
+    pub result: crate::front::Res,
+    pub pulled: usize,
+    pub bytes: Option<Vec<u8>>,
+    pub digest: u64,
+}
+
+struct CountIt<I> {
+    it: I,
+    n: std::rc::Rc<std::cell::Cell<usize>>,
+}
+impl<I: Iterator> Iterator for CountIt<I> {
+    type Item = I::Item;
+    fn next(&mut self) -> Option<I::Item> {
+        let x = self.it.next();
+        if x.is_some() {
+            self.n.set(self.n.get() + 1);
+        }
+        x
+    }
+}
+
+pub fn run_from_iter(case: &FromIterCase) -> FromIterRun {
+    use crate::front::{res_of_err, Res};
+    let n = std::rc::Rc::new(std::cell::Cell::new(0usize));
+    let items = case.items.clone();
+    let r = catch_unwind(AssertUnwindSafe(|| -> Result<Vec<u8>, fst::Error> {
+        let it = CountIt { it: items.into_iter(), n: n.clone() };
+        Ok(match case.entry {
+            MemFront::SetFromIter => fst::Set::from_iter(it.map(|x| x.0))?.as_fst().as_bytes().to_vec(),
+            MemFront::MapFromIter => fst::Map::from_iter(it)?.as_fst().as_bytes().to_vec(),
+            MemFront::FstFromIterSet => raw::Fst::from_iter_set(it.map(|x| x.0))?.into_inner(),
+            MemFront::FstFromIterMap => raw::Fst::from_iter_map(it)?.into_inner(),
+            _ => unreachable!("harness: not a from_iter entry point"),
+        })
+    }));
+    let (result, bytes) = match r {
+        Err(p) => (Res::Panic(panic_msg(p)), None),
+        Ok(Ok(b)) => (Res::Ok, Some(b)),
+        Ok(Err(e)) => (res_of_err(e), None),
+    };
+    let mut d = Digest::new();
+    d.u64(result.code());
+    d.u64(n.get() as u64);
+    if let Some(b) = &bytes {
+        d.bytes(b);
+    }
+    FromIterRun { result, pulled: n.get(), bytes, digest: d.finish() }
+}
+
+pub fn check_from_iter(case: &FromIterCase, run: &FromIterRun) -> Option<Violation> {
+    use crate::build::{expect_matches, read_back, reference_build, show_expect};
+    use crate::front::{Fin, Op, Res, TaskSpec};
+    use crate::model::{Contract, Expect};
+    let v = |o: &str, s: String| Some(Violation { oracle: o.to_string(), observed: s });
+    if let Res::Panic(m) = &run.result {
+        return v("C06.panic", format!("{} panicked: {}", case.entry.name(), m));
+    }
+    let set_like = matches!(case.entry, MemFront::SetFromIter | MemFront::FstFromIterSet);
+    let mut m = Contract::new();
+    let mut want = Expect::Ok;
+    let mut pulled = 0;
+    for (k, val) in &case.items {
+        pulled += 1;
+        let e = if set_like { m.add(k) } else { m.insert(k, *val) };
+        if e != Expect::Ok {
+            want = e;
+            break;
+        }
+    }
+    if !expect_matches(&want, &run.result) {
+        return v(
+            "C06.H1.result_differs_from_contract",
+            format!(
+                "{} over {} items returned {} but the contract says {}",
+                case.entry.name(),
+                case.items.len(),
+                run.result.show(),
+                show_expect(&want)
+            ),
+        );
+    }
+    if run.pulled != pulled {
+        return v(
+            "C06.H5.bulk_call_consumed_wrong_count",
+            format!("{} pulled {} items, contract says {}", case.entry.name(), run.pulled, pulled),
+        );
+    }
+    if let Some(bytes) = &run.bytes {
+        let accepted: Vec<Item> =
+            m.accepted.iter().map(|(k, x)| (k.clone(), if set_like { 0 } else { *x })).collect();
+        match read_back(bytes) {
+            Err(e) => return v("C06.H4.readback_failed", e),
+            Ok(rb) => {
+                if rb.items != accepted || rb.len != accepted.len() || !rb.verify_ok {
+                    return v(
+                        "C06.H4.content_differs_from_model",
+                        format!("{} entries read back (len()={}), {} accepted", rb.items.len(), rb.len, accepted.len()),
+                    );
+                }
+            }
+        }
+        let spec = TaskSpec {
+            front: if set_like { Front::Set } else { Front::Map },
+            registry: None,
+            ops: accepted.iter().map(|(k, x)| Op::Ins(k.clone(), *x)).collect(),
+            fin: Fin::IntoInner,
+        };
+        if let (_, Some(refb)) = reference_build(&spec) {
+            if &refb != bytes {
+                return v(
+                    "C06.H4.bytes_differ_from_clean_rebuild",
+                    format!("{}: {} bytes vs {} bytes from a builder fed exactly the accepted sequence", case.entry.name(), bytes.len(), refb.len()),
+                );
+            }
+        }
+    }
+    None
+}
